@@ -385,6 +385,12 @@ def mk_call(f, args, kw):
     if not args and not kw and is_t(f, "attr") and f[2] in ("items", "keys", "values") and is_t(f[1], "dictfam"):
         d = f[1]
         return ("fam", d[1], {"items": mk_tuple((d[2], d[3])), "keys": d[2], "values": d[3]}[f[2]])
+    if is_t(f, "attr") and f[2] == "get" and is_t(f[1], "dict") and len(args) in (1, 2) and not kw and all(not is_t(k_, "const") or k_[1] != "**" for k_, _v in f[1][1]):
+        # {k1: v1, ..}.get(x, default): the chain of equality cases
+        out = args[1] if len(args) == 2 else C(None)
+        for k_, v_ in reversed(f[1][1]):
+            out = mk_phi(mk_cmp("==", args[0], k_), v_, out)
+        return out
     if len(args) == 1 and not kw:
         a = args[0]
         # Diff.tree_primal / tree_tangent / no_change / unknown_change are tree maps: they distribute over a literal tuple
@@ -427,6 +433,20 @@ def mk_call(f, args, kw):
     return ("call", f, args, tuple(kw))
 
 
+def mk_is(a, b, not_none=None):
+    """identity test; against None it is decided for terms that certainly are / are not None (not_none: extra predicate, e.g. bound methods of the class
+    being evaluated) and distributes over joins"""
+    if b == C(None):
+        if a == C(None):
+            return C(True)
+        if is_t(a, "phi"):
+            return mk_phi(a[1], mk_is(a[2], b, not_none), mk_is(a[3], b, not_none))
+        if (not_none is not None and not_none(a)) or is_t(a, "closure") or is_t(a, "ctor") or is_t(a, "tuple") or is_t(a, "list") or is_t(a, "dict") or is_t(a, "partial") \
+                or (is_t(a, "const") and a[1] is not None):
+            return C(False)  # a bound method / local function / freshly built object is not None
+    return ("is", a, b)
+
+
 def mk_cmp(op, a, b):
     """comparison term; == and != are symmetric, so their operands are put in a canonical order (constants / the empty tuple on the right, otherwise by repr):
     `a == b` and `b == a` are the same term"""
@@ -450,6 +470,11 @@ def mk_phi(test, a, b):
         return mk_phi(("cmp", "is", test[2], test[3]), b, a)
     if is_t(a, "tuple") and is_t(b, "tuple") and len(a[1]) == len(b[1]) and not _has_star(a) and not _has_star(b):
         return mk_tuple(mk_phi(test, x, y) for x, y in zip(a[1], b[1]))
+    # (True if c else False) is c; (False if c else True) is not c
+    if a == C(True) and b == C(False):
+        return test
+    if a == C(False) and b == C(True):
+        return ("un", "not", test)
     # (d[k] if k in d else default) is d.get(k, default)
     if is_t(test, "cmp") and test[1] == "in" and a == ("index", test[3], test[2]):
         return ("call", ("attr", test[3], "get"), (test[2], b), ())
@@ -1206,7 +1231,8 @@ class _Ctx:
                 right = self.expr(r, env)
                 name = _CMP.get(type(op), "?")
                 if name in ("is", "is not"):
-                    t = ("is", left, right)
+                    # (self.<method> is a bound method: never None)
+                    t = mk_is(left, right, lambda x: is_t(x, "attr") and x[1] == P("self") and self.cls is not None and ev.prog.find_method(self.cls, x[2]) is not None)
                     if name == "is not":
                         t = ("un", "not", t)
                 else:
